@@ -43,6 +43,12 @@ def mk(rng, i, npos, nkw, order=None, fails=(), fn_fails=False, line=None):
          "fn_fails": fn_fails, "kwnames": kwnames, "proxy": proxy,
          "base_exc": bool(fails) and not proxy and rng.random() < 0.3,
          "rendezvous": bool(not fails and not fn_fails and max(times) > 0 and rng.random() < 0.3)}
+    if n and rng.random() < 0.15:
+        # an argument whose VALUE is a future (resolved, failed or pending): handed to the function as it is
+        cand = [j for j in range(1, n + 1) if j not in proxy and j not in fails]
+        if cand:
+            p["futvals"] = {str(j): rng.choice(["done", "failed", "pending"])
+                            for j in rng.sample(cand, rng.randint(1, min(2, len(cand))))}
     strat = ["random", rng.randrange(10 ** 9), 0.6] if i % 4 else ["pct", rng.randrange(10 ** 9), 3, 250]
     gran = "line" if (line if line is not None else i % 5 == 0) else "sync"
     return {"scen": "apply", "params": p, "strat": strat, "gran": gran,
